@@ -496,6 +496,12 @@ def run(F, R, tier):
                 a = iv(args[0], depth + 1)
                 m = max(abs(a[0]), abs(a[1]))
                 return (0.0, m ** 4)
+            if short in ("min", "fmin") and len(args) == 2:
+                a, b = iv(args[0], depth + 1), iv(args[1], depth + 1)
+                return (min(a[0], b[0]), min(a[1], b[1]))
+            if short in ("max", "fmax") and len(args) == 2:
+                a, b = iv(args[0], depth + 1), iv(args[1], depth + 1)
+                return (max(a[0], b[0]), max(a[1], b[1]))
             if short in ("abs", "fabs") and len(args) == 1:
                 t_ = str(strip_all(args[0]).get("t") or "")
                 if "complex" in t_:
